@@ -74,6 +74,15 @@ def kernelView (s : DState) (what : String) (args : List String) : String :=
       let sp := refs.map fun r => windowPoints (r - rg) r sr.samples
       "it=" ++ String.intercalate "," (it.map sh) ++ " spec=" ++ String.intercalate "," (sp.map sh)
     | _, _ => "bad-op"
+  | sr :: _, "matrixscan", [rg, st, r0, n] =>
+    match rg.toInt?, st.toInt?, r0.toInt?, n.toNat? with
+    | some rg, some st, some r0, some n =>
+      let sh := fun (ps : List (Int × Float)) => String.intercalate "+" (ps.map fun p => showOptPt (some p))
+      let refs := (List.range n).map fun (k : Nat) => r0 + (k : Int) * st
+      let it := selectRangesM rg st rg (Buf.new sr.samples) [] refs
+      let sp := refs.map fun r => windowPoints (r - rg) r sr.samples
+      "it=" ++ String.intercalate "," (it.map sh) ++ " spec=" ++ String.intercalate "," (sp.map sh)
+    | _, _, _, _ => "bad-op"
   | _, _, _ => "bad-op"
 
 /-- `id:bits,id:bits` -/
